@@ -20,7 +20,7 @@ META = {
                    '(decided by the solver for the whole box, forking where both orders occur), the coplanarity tests fork likewise.  At every leaf the '
                    'three selected integer combinations are concrete: det = +-1, returned metric = P^T.G.P (lengths and cosines), first vector no longer '
                    'than any of the non-zero candidates, second no longer than any candidate not collinear with the first.  Boxes: three reduced cells and '
-                   'two skewed settings whose reduced vectors need coefficients (2,-2,1).  A concrete call with uvw=2 precedes each run (history independence).',
+                   'two skewed settings whose reduced vectors need coefficients (2,-2,1).  A concrete call with uvw=2 precedes each run (history independence); thorough tier: additionally uvw=2 symbolic after a concrete call with uvw=1 on a box whose shortest vector is outside the range of uvw=1 (63 candidates: budgeted, inconclusive when the wall limit is hit).',
     'functions': ['xfab.tools.reduce_cell', 'xfab.laue.reduce_cell', 'xfab.tools.form_a_mat', 'xfab.tools.a_to_cell'],
     'bounds': {'cells': 'five boxes (relative half-width 0.5% in lengths, 0.004 in cosines)', 'search range': 'uvw=1 (indices -1..0, 7 non-zero candidates); the default uvw=3 is outside the bound'},
     'outside_claim': ['the default search range uvw=3 (sorting 216 symbolic norms)', 'cells outside the boxes', 'third vector minimality (only non-coplanarity and unimodularity are checked for it)', 'binary64 rounding'],
